@@ -199,13 +199,20 @@ theorem labelWalk_prefix_rejected_of_le (r q : Bytes) (h1 : q ≠ r) (h2 : ∀ p
 
 theorem originMatches_run (env : Prog.Env) (co ro : Bytes) :
     Prog.run env (originMatches co ro) = true ↔
-      ∃ ch rh, env.answer (.urlHost co) = .bytes ch ∧ env.answer (.urlHost ro) = .bytes rh ∧
+      ∃ ch rh, Url.hostOf co = some ch ∧ Url.hostOf ro = some rh ∧
         labelWalk ch rh = true := by
   unfold originMatches
-  simp only [Prog.run_bind, Prog.run_query]
-  cases hc : env.answer (.urlHost co) <;> simp only [Prog.run_bind, Prog.run_query, Prog.run_pure] <;>
-    try (simp; done)
-  cases hr : env.answer (.urlHost ro) <;> simp [Prog.run_pure]
+  cases hc : Url.hostOf co <;> simp only [Prog.run_pure] <;> try (simp; done)
+  cases hr : Url.hostOf ro <;> simp [Prog.run_pure]
+
+/-- the origin decision asks nothing: it is the label walk on the two hosts the URL model reports -/
+theorem originMatches_run_eq (env : Prog.Env) (co ro : Bytes) :
+    Prog.run env (originMatches co ro) =
+      (match Url.hostOf co, Url.hostOf ro with
+       | some ch, some rh => labelWalk ch rh
+       | _, _ => false) := by
+  unfold originMatches
+  cases hc : Url.hostOf co <;> simp only [Prog.run_pure]
+  cases hr : Url.hostOf ro <;> simp only [Prog.run_pure]
 
 end WebAuthn
-
